@@ -203,3 +203,40 @@ def c13_dtypes(ctx, dtype, colour, diff):
     again = ca(probe)
     ctx.ensure("second call with the same probe gives the same result", bool(np.array_equal(again.img, out.img)))
     ctx.ensure("baseline maps to zero signal", bool(np.allclose(ca._subtract_background(mk(base_arr.copy()).img_as(float) if dt.kind != "f" else mk(base_arr.copy())), 0)))
+
+
+@ob("C13.two_analyses", cases=product_cases(first_extra=(2, 1), second_extra=(0, 1)), mods=MODS, funcs=FUNCS, stubs=STUBS, samples=(1, 3),
+    cite="For any baseline the analysis maps the baseline itself to zero signal, and maps any probe to model(restoration(balancing(cleaning(reduction(difference))))) "
+         "(each analysis object with ITS baselines)",
+    note="relational: an analysis constructed AFTER another one (with other extra baselines) has the cleaning filter of its own baselines only - none, if it has a single baseline - "
+         "and the earlier analysis keeps its own (after seed C13_i: mutable default argument filled in place by the first analysis)")
+def c13_two_analyses(ctx, first_extra, second_extra):
+    hw = (2, 2)
+    mk = lambda arr: darsia.ScalarImage(arr, dimensions=[1.0, 1.0])
+    b1 = ctx.array("b1", hw, sample=(0.0, 1.0))
+    e1 = [ctx.array(f"e1_{k}", hw, sample=(0.0, 1.0)) for k in range(first_extra)]
+    b2 = ctx.array("b2", hw, sample=(0.0, 1.0))
+    e2 = [ctx.array(f"e2_{k}", hw, sample=(0.0, 1.0)) for k in range(second_extra)]
+    A1 = darsia.ConcentrationAnalysis(base=[mk(b1)] + [mk(e) for e in e1])
+    A2 = darsia.ConcentrationAnalysis(base=[mk(b2)] + [mk(e) for e in e2])
+
+    def filt(base, extras):
+        if not extras:
+            return None
+        f = np.zeros(hw, dtype=object)
+        for e in extras:
+            r = expected_diff("absolute", e, base)
+            for v in np.ndindex(*hw):
+                f[v] = sym_max(f[v], r[v])
+        return f
+    f1, f2 = filt(b1, e1), filt(b2, e2)
+    if f2 is None:
+        ctx.ensure("second analysis (single baseline): no cleaning filter", A2.threshold_cleaning_filter is None)
+    else:
+        ctx.ensure("second analysis: cleaning filter of ITS extra baselines", eq(A2.threshold_cleaning_filter, f2))
+    ctx.ensure("first analysis keeps the cleaning filter of its extra baselines", eq(A1.threshold_cleaning_filter, f1))
+    p = ctx.array("p", hw, sample=(0.0, 1.0))
+    want = expected_diff("absolute", p, b2)
+    if f2 is not None:
+        want = _clip0(want - f2)
+    ctx.ensure("second analysis maps a probe to cleaning(difference) with its own baselines", eq(A2(mk(p)).img, want))
